@@ -413,6 +413,72 @@ fn compiled_witnesses(out: &std::path::Path) -> Result<Vec<String>, String> {
     Ok(res)
 }
 
+// ---------------------------------------------------------------- parameter shadowing (resolve)
+/// Renaming a macro parameter must not change the expansion (the parameter is bound: `resolve`
+/// looks a name up in the innermost scope first, and the expansion substitutes it). Each template
+/// is rendered twice: with parameter names that are also global names (a bare terminal of the
+/// extern enum, a global nonterminal) and with fresh names; `stage_dump(macro_expand)` of the two
+/// must coincide. `\u{a7}0`, `\u{a7}1` stand for the parameters.
+const SHADOW_TAIL: &str = "A: () = { \"a\" };\nB: () = { \"b\" };\nCc: () = { \"c\" A };\nSh1: () = { \"s1\" };\nSh2: () = { \"s2\" };\n\
+extern { type Location = usize; type Error = (); enum Tok { ID => Tok::Id, NUM => Tok::Num } }\n";
+
+const SHADOW_FIXED: &[&str] = &[
+    "grammar;\nM<\u{a7}0>: () = { \"m\" \u{a7}0 };\npub S: () = { M<\"a\"> M<A> };\n",
+    "grammar;\nM<\u{a7}0>: () = { \"m\" if \u{a7}0 == \"a\", \"n\" \u{a7}0 if \u{a7}0 != \"a\" };\npub S: () = { M<\"a\"> M<\"b\"> };\n",
+    "grammar;\nM<\u{a7}0, \u{a7}1>: () = { (<\u{a7}0> \u{a7}1)* \u{a7}1? };\npub S: () = { M<A, \",\"> M<\"x\", B> };\n",
+];
+
+fn shadow_template(r: &mut Rng) -> String {
+    let nts: Vec<String> = PLAIN_NTS.iter().map(|s| s.to_string()).collect();
+    let mut g = Gen { r, macros: vec![], nts, adversarial: false };
+    let mut text = String::from("grammar;\n");
+    let names = ["M", "Comma", "W"];
+    let nmac = 1 + g.r.below(3);
+    for i in 0..nmac {
+        let arity = 1 + g.r.below(2);
+        let params: Vec<String> = (0..arity).map(|k| format!("\u{a7}{k}")).collect();
+        let nalts = 1 + g.r.below(3);
+        let alts: Vec<String> = (0..nalts).map(|_| g.alt(&params, i)).collect();
+        writeln!(text, "{}<{}>: () = {{ {} }};", names[i], params.join(", "), alts.join(", ")).unwrap();
+        g.macros.push(MacroDef { name: names[i].to_string(), params });
+    }
+    let alts: Vec<String> = (0..1 + g.r.below(2)).map(|_| g.alt(&[], nmac)).collect();
+    writeln!(text, "pub S: () = {{ {} }};", alts.join(", ")).unwrap();
+    text
+}
+
+/// (grammar with colliding parameter names, the same with fresh names, the two dumps) when they differ
+fn shadow_case(template: &str, names: [&str; 2], h: &mut Hist) -> Option<String> {
+    let render = |n0: &str, n1: &str| {
+        format!("{}{}", template.replace("\u{a7}0", n0).replace("\u{a7}1", n1), SHADOW_TAIL)
+    };
+    let g1 = render(names[0], names[1]);
+    let g2 = render("Fresh0", "Fresh1");
+    let d1 = lalrpop::verif_hooks::stage_dump(&g1, None, "macro_expand");
+    let d2 = lalrpop::verif_hooks::stage_dump(&g2, None, "macro_expand");
+    if d2.starts_with("error parse") || d2.starts_with("error prevalidate") {
+        h.hit("shadow:template-rejected");
+        return None;
+    }
+    let stage = |d: &str| d.split(' ').take(2).collect::<Vec<_>>().join(" ");
+    // error texts may mention the parameter name: errors are compared by the rejecting pass only
+    let same = if d1.starts_with("ok ") || d2.starts_with("ok ") { d1 == d2 } else { stage(&d1) == stage(&d2) };
+    h.hit(if d2.starts_with("ok ") { "shadow:compared-ok" } else { "shadow:compared-error" });
+    if same {
+        return None;
+    }
+    let msg = |d: &str| {
+        if d.starts_with("ok ") { d.chars().take(1500).collect::<String>() } else {
+            let m = d.split(' ').nth(2).and_then(dec_str).unwrap_or_default();
+            format!("{} {m}", stage(d))
+        }
+    };
+    Some(format!(
+        "{{\"grammar_shadowing\":{},\"grammar_renamed\":{},\"macro_expand_shadowing\":{},\"macro_expand_renamed\":{}}}",
+        json_str(&g1), json_str(&g2), json_str(&msg(&d1)), json_str(&msg(&d2))
+    ))
+}
+
 fn canonical_error(line: &str) -> String {
     // error macro_expand x<hex>: cut the text of the regex crate
     if let Some(hexmsg) = line.strip_prefix("error macro_expand ") {
@@ -484,6 +550,27 @@ fn main() {
     let cases = st.count;
     st.finish();
     col.finish();
+    // parameter shadowing leg
+    let mut shadow: Vec<String> = vec![];
+    let mut shadow_cases = 0usize;
+    let name_sets: [[&str; 2]; 4] = [["ID", "NUM"], ["Sh1", "Sh2"], ["ID", "Sh1"], ["Sh2", "NUM"]];
+    for t in SHADOW_FIXED {
+        for ns in name_sets {
+            shadow_cases += 1;
+            if let Some(f) = shadow_case(t, ns, &mut h) {
+                shadow.push(f);
+            }
+        }
+    }
+    for i in 0..o.n / 4 {
+        let t = shadow_template(&mut r);
+        shadow_cases += 1;
+        if let Some(f) = shadow_case(&t, name_sets[i % 4], &mut h) {
+            if shadow.len() < 6 {
+                shadow.push(f);
+            }
+        }
+    }
     let compiled = if o.extra.iter().any(|a| a == "--compiled") {
         match compiled_witnesses(&o.out) {
             Ok(v) => format!("[{}]", v.join(",")),
@@ -500,9 +587,10 @@ fn main() {
     }
     std::fs::write(o.out.join("macro.texts"), tf).unwrap();
     println!(
-        "{{\"cases\":{cases},\"distinct_nontrivial\":{nontrivial},\"fixed\":{},\"value_cases\":{},\"hist\":{},\"compiled_witness_mismatches\":{compiled}}}",
+        "{{\"cases\":{cases},\"distinct_nontrivial\":{nontrivial},\"fixed\":{},\"value_cases\":{},\"hist\":{},\"compiled_witness_mismatches\":{compiled},\"shadow_cases\":{shadow_cases},\"shadow_mismatches\":[{}]}}",
         FIXED.len(),
         VALUES_CASES.len(),
-        h.json()
+        h.json(),
+        shadow.join(",")
     );
 }
